@@ -27,7 +27,7 @@ extern void dispatch_queue_set_width(dispatch_queue_t dq, long width);
 #define MAXQ 256
 #define MAXB 4096
 #define REC_LIMIT 300   /* participations of applies with more iterations are not recorded (volume) */
-static _Atomic int c10_rec; static int c10_permille; static __thread uintptr_t skip_base;
+static _Atomic int c10_rec; static int c10_permille; static __thread uintptr_t skip_base; static _Atomic int in_cb;
 static _Atomic uintptr_t qtab[MAXQ]; static _Atomic int nqtab;
 static _Atomic uintptr_t bases[MAXB]; static _Atomic int nbases;
 
@@ -52,7 +52,8 @@ static int base_register(uintptr_t b) {
 }
 static void c10_cb(const volatile void *addr, unsigned size, int kind, int order, unsigned long long a, unsigned long long b,
 		int ok, const char *file, int line) {
-	if (!atomic_load_explicit(&dv_enabled, memory_order_relaxed)) return;
+	atomic_fetch_add(&in_cb, 1);
+	if (!atomic_load(&dv_enabled)) { atomic_fetch_sub(&in_cb, 1); return; }
 	dv_thr_t *t = dv_me();
 	if (atomic_load_explicit(&c10_rec, memory_order_relaxed)) {
 		size_t fl = strlen(file); uintptr_t p = (uintptr_t)addr;
@@ -82,6 +83,7 @@ perturb:
 		uint64_t r = dv_rand(t);
 		if ((int)(r % 1000) < c10_permille) { if ((r >> 20) & 3) sched_yield(); else usleep((useconds_t)((r >> 24) % 60)); }
 	}
+	atomic_fetch_sub(&in_cb, 1);
 }
 
 // ---------------------------------------------------------------- watchdog
@@ -109,7 +111,7 @@ typedef struct { wcase_t *c; dispatch_queue_t lev[MAXL]; _Atomic uint8_t *hits; 
 static sem_t blk_sem;
 static void blocker(void *c) { (void)c; while (sem_wait(&blk_sem) == -1 && errno == EINTR) ; }
 static void w_work(void *ctx, size_t i) {
-	wrun_t *r = ctx;
+	wrun_t *r = ctx; atomic_fetch_add_explicit(&progress, 1, memory_order_relaxed);
 	if (i >= r->c->n) { atomic_fetch_add(&r->oor, 1); return; }
 	dv_user(DVU_CALLOUT_BEGIN, r->c->id, i, 0);
 	if (atomic_fetch_add(&r->nextexp, 1) != i) atomic_store(&r->inorder_bad, 1);
@@ -133,7 +135,8 @@ static void w_inner(void *ctx) {
 }
 static void w_outer(void *ctx, size_t i) { if (i == 0) w_inner(ctx); else usleep(100); }
 static int wait_states(dispatch_queue_t *lev, uint64_t *want, int n, int ms) {
-	for (int it = 0; it < ms * 10; it++) { int ok = 1; for (int k = 0; k < n; k++) if (q_state(lev[k]) != want[k]) ok = 0; if (ok) return 1; usleep(100); }
+	for (int it = 0; it < ms * 10; it++) { int ok = 1; for (int k = 0; k < n; k++) if (q_state(lev[k]) != want[k]) ok = 0; if (ok) return 1;
+		if ((it & 1023) == 0) atomic_fetch_add(&progress, 1); usleep(100); }
 	return 0;
 }
 static void run_width_case(wcase_t *c) {
@@ -154,7 +157,7 @@ static void run_width_case(wcase_t *c) {
 	dispatch_group_t g = dispatch_group_create(); int nb = 0, cum = 0;
 	for (int k = 0; k < c->nlev; k++) { for (int j = 0; j < c->b[k]; j++) { dispatch_group_async_f(g, r.lev[k], NULL, blocker); nb++; }
 		cum += c->b[k]; want[k] = idle[k] + (uint64_t)cum * DISPATCH_QUEUE_WIDTH_INTERVAL; }
-	int bok = wait_states(r.lev, want, c->nlev, 1000);
+	int bok = wait_states(r.lev, want, c->nlev, 30000);
 	for (int k = 0; k < c->nlev; k++) pre[k] = q_state(r.lev[k]);
 	printf("C %d pre", c->id); for (int k = 0; k < c->nlev; k++) printf(" %" PRIu64, pre[k]); printf(" blockers_ok=%d\n", bok);
 	if (bok) {
@@ -178,7 +181,7 @@ static void run_width_case(wcase_t *c) {
 	for (int j = 0; j < nb; j++) sem_post(&blk_sem);
 	dispatch_group_wait(g, DISPATCH_TIME_FOREVER); dispatch_release(g);
 	int balanced = 1; if (bok) for (int k = 0; k < c->nlev; k++) if (post[k] != pre[k]) balanced = 0;
-	int iok = balanced ? wait_states(r.lev, idle, c->nlev, 2000) : 0;
+	int iok = balanced ? wait_states(r.lev, idle, c->nlev, 30000) : 0;
 	printf("C %d end idle_ok=%d\n", c->id, iok); fflush(stdout);
 	// a chain whose accounting is off is leaked, never touched again (disposing of it could trap)
 	if (iok) for (int k = 0; k < c->nlev; k++) dispatch_release(r.lev[k]);
@@ -240,7 +243,7 @@ static __thread int cur_depth;
 static const size_t small_n[] = {0, 1, 2, 3, 5, 15, 16, 17, 40};
 static void run_apply(int depth, int kind, size_t n, uint64_t rng);
 static void s_work(void *ctx, size_t i) {
-	inst_t *I = ctx; uint64_t b = stamp();
+	inst_t *I = ctx; uint64_t b = stamp(); atomic_fetch_add_explicit(&progress, 1, memory_order_relaxed);
 	if (I->rec) dv_user(DVU_CALLOUT_BEGIN, I->aid, i, 0);
 	if (i >= I->n) { atomic_fetch_add(&I->oor, 1); if (I->rec) dv_user(DVU_CALLOUT_END, I->aid, i, 0); return; }
 	atomic_fetch_add(&I->started, 1);
@@ -354,9 +357,11 @@ int main(int argc, char **argv) {
 		rc = stress_main(seed, rounds, big);
 	}
 	atomic_store(&c10_rec, 0); c10_permille = 0;
-	usleep(100000);   // late helpers leave _dispatch_apply_invoke2
+	usleep(100000);   // late helpers leave _dispatch_apply_invoke2 (those that have not are reported as truncated runs)
 	atomic_store(&wd_stop, 1); pthread_join(wd, NULL);
 	atomic_store(&dv_enabled, 0);
+	while (atomic_load(&in_cb) > 0) usleep(100);     // nobody is inside the recorder any more: the buffers are stable
 	dv_dump(stdout);
+	printf("END %d\n", rc); fflush(stdout);          // the output is complete
 	return rc;
 }
